@@ -10,8 +10,19 @@ package main
 // caller's contract supplies `loop iter<k> invariant` clauses (k-th such call in the
 // function), the state the closure may write is found by dry runs and havocked, the invariants
 // are checked before the first call (inv-init) and after one arbitrary call (inv-step), and
-// execution continues from an arbitrary number of calls (invariants assumed). The number of
-// calls and completeness (every member visited) are not modelled.
+// execution continues from an arbitrary number of calls (invariants assumed).
+//
+//	opt iterates-complete true
+//
+// adds a ghost visited set (readable as visited(iter<k>, x)): every call gets a member that
+// was not visited before, and when the iteration ends without being stopped every member has
+// been visited.
+//
+//	opt iterates-stops true
+//
+// (callback returns bool) ends the iteration after the first call that returns false: the
+// state after the iteration is either the state after such a call, or a state after only
+// true-returning calls in which every member has been visited.
 
 import (
 	"fmt"
@@ -51,6 +62,16 @@ func (e *Env) iterateClosure(fr *Frame, it *Item, recv *Iface, args []Value, var
 	key := fmt.Sprintf("iter%d", ord)
 	invs := e.loopInvariants(fr, key)
 	elemT := fv.Fn.Signature.Params().At(0).Type()
+	complete := it.Opts["iterates-complete"] == "true"
+	stops := it.Opts["iterates-stops"] == "true"
+	visName, visSort := "", "(Array "+e.scalarSort(elemT)+" Bool)"
+	if complete {
+		visName = fmt.Sprintf("V!%s!%s", sanitize(top.fn.Name()), key)
+		e.heapSorts[visName] = visSort
+		e.cellArray[visName] = true
+		e.declared[visName] = true
+		st.heap[visName] = constArray(visSort, tFalse)
+	}
 	evalInvs := func(s *State) []string {
 		var out []string
 		for _, c := range invs {
@@ -59,7 +80,7 @@ func (e *Env) iterateClosure(fr *Frame, it *Item, recv *Iface, args []Value, var
 		return out
 	}
 	// one call of the closure with an arbitrary member, from state s
-	callOnce := func(s *State) {
+	callOnce := func(s *State) Value {
 		el := e.freshValue(elemT, "it")
 		v2 := map[string]Value{}
 		for k, v := range vars {
@@ -68,7 +89,21 @@ func (e *Env) iterateClosure(fr *Frame, it *Item, recv *Iface, args []Value, var
 		v2["it"] = el
 		ctx := &SpecCtx{e: e, st: s, vars: v2, pkg: pkg}
 		e.assume(mkImp(s.pc, ctx.boolTerm(pred)))
-		e.callStatic(fr, fv.Fn, fv.Bind, []Value{el}, fv.Fn.Signature.Results(), s)
+		var vis, k string
+		if complete {
+			vis = s.heap[visName]
+			if vis == "" {
+				vis = constArray(visSort, tFalse)
+			}
+			k = e.flatten(el)[0]
+			e.assume(mkImp(s.pc, mkNot(mkSelect(vis, k))))
+		}
+		r := e.callStatic(fr, fv.Fn, fv.Bind, []Value{el}, fv.Fn.Signature.Results(), s)
+		if complete {
+			s.heap[visName] = e.maybeNameForce(mkStore(vis, k, tTrue), visSort, "vis")
+			e.noteWrite(visName, k)
+		}
+		return r
 	}
 	if e.dry == 0 {
 		for i, c := range invs {
@@ -164,11 +199,23 @@ func (e *Env) iterateClosure(fr *Frame, it *Item, recv *Iface, args []Value, var
 		e.loopNotes = append(e.loopNotes, fmt.Sprintf("iterator call %s (%s) in %s: %d invariant clause(s); havocs %s", key, it.Name, fr.fn.Name(), len(invs), strings.Join(sortedKeys(modified), ", ")))
 	}
 	// one arbitrary call, checked
+	// (guarded by a fresh boolean, so that what is assumed about the element passed — a
+	// member exists — does not leak into the state after the iteration)
 	body := hv.clone()
-	callOnce(body)
+	called := e.fresh("itercalled", sBool)
+	body.pc = e.maybeName(mkAnd(hv.pc, called), sBool)
+	res := callOnce(body)
+	cont := tTrue // the iteration continues after this call
+	if stops {
+		rs, ok := res.(*Sc)
+		if !ok || rs.Sort != sBool {
+			specFail("opt iterates-stops: the callback does not return a bool")
+		}
+		cont = rs.T
+	}
 	if e.dry == 0 {
 		for i, c := range invs {
-			e.oblige("inv-step", "loop"+key+lbl(c.Label), body.pc, evalInvs(body)[i])
+			e.oblige("inv-step", "loop"+key+lbl(c.Label), mkAnd(body.pc, cont), evalInvs(body)[i])
 		}
 		pk := map[string]bool{}
 		for n := range partialRefs {
@@ -193,7 +240,41 @@ func (e *Env) iterateClosure(fr *Frame, it *Item, recv *Iface, args []Value, var
 		}
 	}
 	// continue from an arbitrary number of calls
-	*st = *hv
-	_ = top
+	exit := hv
+	if complete {
+		// not stopped: every member has been visited
+		x := "|$x|"
+		v2 := map[string]Value{}
+		for k, v := range vars {
+			v2[k] = v
+		}
+		v2["it"] = &Sc{T: x, Sort: e.scalarSort(elemT), Typ: elemT}
+		e.quantDepth++
+		p := (&SpecCtx{e: e, st: hv, vars: v2, pkg: pkg}).boolTerm(pred)
+		e.quantDepth--
+		vis := hv.heap[visName]
+		pats := ""
+		for _, pt := range patternTerms(p) {
+			if strings.Contains(pt, x) {
+				pats += " :pattern (" + pt + ")"
+			}
+		}
+		pats += " :pattern (" + mkSelect(vis, x) + ")"
+		all := fmt.Sprintf("(forall ((%s %s)) (! (=> %s %s)%s))", x, e.scalarSort(elemT), p, mkSelect(vis, x), pats)
+		if stops {
+			a := hv.clone()
+			a.pc = e.maybeName(mkAnd(hv.pc, mkNot(called)), sBool)
+			b := body.clone()
+			b.pc = e.maybeName(mkAnd(body.pc, mkNot(cont)), sBool)
+			e.assume(mkImp(a.pc, all))
+			exit = e.mergeStates([]*State{a, b})
+		} else {
+			e.assume(mkImp(hv.pc, all))
+		}
+		e.trust("iterator " + it.Name + ": each member at most once; complete unless stopped")
+	} else if stops {
+		specFail("opt iterates-stops needs iterates-complete")
+	}
+	*st = *exit
 	return true
 }
